@@ -108,6 +108,9 @@ def run_one(tape: Any, cfg: Dict[str, Any], forbid: FrozenSet[str] = frozenset()
             os.makedirs(certdir, exist_ok=True)
         plog: List[Any] = []
         plugins = [make_proxy_plugin(1, {'do_intercept': 'no'} if opt_out else {}, plog)] if (opt_out or tape.coin(0.2, 'plug')) else []
+        if plugins and tape.coin(0.5, 'second-plugin'):
+            # a second, passive plugin after the first: one plugin's opt-out stands whatever later plugins answer
+            plugins.append(make_proxy_plugin(2, {}, plog))
         floor = 1
         caps = [scen.pick_cap(tape, 64, 'cap%d' % i) for i in range(4)]
         faults = scen.setup_faults(w, tape, {'send': ['short', 'eagain']}, budget=200)
